@@ -229,7 +229,12 @@ impl UrlPath {
                 let static_pattern = part.static_pattern.clone().unwrap();
                 // println!("static pattern {:?}", static_pattern);
                 // println!("path {:?}", path);
-                path = path.strip_prefix(static_pattern.as_str()).unwrap().to_string();
+                let boxed_path = path.strip_prefix(static_pattern.as_str());
+                if boxed_path.is_none() {
+                    let message = format!("path does not match the pattern, expected {} at {}", static_pattern, path);
+                    return Err(message);
+                }
+                path = boxed_path.unwrap().to_string();
             } else {
                 // continue, unless the part is last,
                 // if so read to the end of path and add to map
